@@ -12,7 +12,10 @@ use crate::{
     LZ13CompressionFormat, Language, PathLocalizer,
 };
 use std::borrow::Cow;
+#[cfg(not(mila_verif))]
 use std::collections::{HashMap, HashSet};
+#[cfg(mila_verif)]
+use {crate::verif_seam::HashSet, std::collections::HashMap};
 use std::path::{Path, PathBuf};
 
 type Result<T> = std::result::Result<T, LayeredFilesystemError>;
